@@ -18,6 +18,7 @@ func init() {
 		"DECIDED: D1 tag table — for every Set*/Add* method of the streaming builders the first appended varint equals (fieldNumber<<3)|wireType with number and type parsed from the struct tag of the same-named field of the generated message (protobuf, protobuf_key, protobuf_val; a packed repeated scalar may be written unpacked with the element's wire type), and the value is written with the encoding of that kind: fixed64 ↔ AppendFixed64(Float64bits(v)), zigzag32 ↔ AppendVarint(EncodeZigZag(int64(v))), varint ↔ AppendVarint(v), bytes ↔ tag, length of the sub-buffer, then both written in that order after the callback filled a reset sub-buffer. "+
 			"D2 ToProto ↔ EncodeProto correspondence for the dense, sparse and paginated stores and the sketch: same set of message fields / builder setters, each fed from the same normalised term (same receiver field, conversion, window), sub-messages go to the same side, empty stores behave alike. "+
 			"D3 rebuild path — FromProtoWithStoreProvider feeds PositiveValues into the store that becomes the positive store (same for negative), copies ZeroCount, builds the mapping from pb.Mapping and returns its error; MergeWithProto (both copies) adds BinCounts[k] at int(k) AND ContiguousBinCounts[i] at i + int(offset). D4 kind round trip = C19-D1. "+
+			"SHARED (re-evaluated here under its home rule id): C19-D1 protobuf part — for each mapping kind the interpolation enum and (gamma, offset) written by ToProto and by the streaming EncodeProto are the ones whose FromProto arm constructs that same kind. "+
 			"NOT DECIDED: behaviour of the protobuf runtime; bit-for-bit equality of weights (follows from float64 transport).",
 		"one obligation per builder method (tag + value encoding), per store/sketch correspondence clause, per rebuild clause",
 		true, runC09)
@@ -69,6 +70,8 @@ func runC09(c *Ctx) {
 	c09Stores(c, a)
 	c09Sketch(c, a)
 	c09Rebuild(c, a)
+	// the mapping part of the message: ToProto, EncodeProto and FromProto of every mapping kind agree on enum and parameters
+	c.shared(func() { c19Proto(c, mappingInfos(c, "C09")) }, func(o *Obligation) bool { return true })
 }
 
 func c09Tags(c *Ctx) {
@@ -596,29 +599,66 @@ func c09Rebuild(c *Ctx, a *sketchAnchors) {
 				}
 			}
 		}
-		// both loops run on every call: the only branches of the function are the two range loops' own
-		// continuation tests (a guard such as `len(pb.ContiguousBinCounts) > 0` choosing one form drops the other)
+		// both forms are added on every call: a path may leave one of them out only on evidence that this form's
+		// own collection is empty (its range loop made no iteration, or a len(...) == 0 style test) — a guard that
+		// chooses one form because the OTHER is present drops weight
 		extra := ""
-		for _, b := range g.Blocks {
-			if len(b.Instrs) == 0 {
-				continue
+		ps, _ := exec(c, g, nil, 2)
+		formOf := func(t *Term) string {
+			if !isMethodCall(t, "AddWithCount") || len(t.Args) != 3 {
+				return ""
 			}
-			iff, ok := b.Instrs[len(b.Instrs)-1].(*ssa.If)
-			if !ok {
-				continue
+			if cnt := t.Args[2]; cnt.Op == "index" && cnt.Args[0].Op == "field" && cnt.Args[0].Sym == "ContiguousBinCounts" {
+				return "ContiguousBinCounts"
 			}
-			ct := tc.Of(iff.Cond)
-			isLoop := false
-			for _, l := range naturalLoops(g) {
-				if l.header == b {
-					isLoop = true
+			if cnt := t.Args[2]; cnt.Op == "extract" {
+				return "BinCounts"
+			}
+			return ""
+		}
+		emptyEvidence := func(p *Path, fld string) bool {
+			for _, cd := range p.Conds {
+				t := cd.Term
+				mentions := false
+				t.walk(func(x *Term) bool {
+					if x.Op == "field" && x.Sym == fld && len(x.Args) == 1 && x.Args[0].isParam(1) {
+						mentions = true
+					}
+					return true
+				})
+				if !mentions {
+					continue
+				}
+				isLen := func(x *Term) bool { return x.Op == "builtin" && x.Sym == "len" }
+				switch {
+				case t.Op == "extract" && t.Sym == "0" && t.Args[0].Op == "next" && !cd.Taken: // range over a map ended at once
+					return true
+				case t.isBin("<") && t.Args[0].isConst("0") && isLen(t.Args[1]) && !cd.Taken: // 0 < len false
+					return true
+				case t.isBin("<=") && isLen(t.Args[0]) && t.Args[1].isConst("0") && cd.Taken:
+					return true
+				case t.isBin("==") && (isLen(t.Args[0]) && t.Args[1].isConst("0") || isLen(t.Args[1]) && t.Args[0].isConst("0")) && cd.Taken:
+					return true
+				case t.isBin("!=") && (isLen(t.Args[0]) && t.Args[1].isConst("0") || isLen(t.Args[1]) && t.Args[0].isConst("0")) && !cd.Taken:
+					return true
 				}
 			}
-			if !isLoop {
-				extra = fmt.Sprintf("branch on %s at %s is not a loop test", ct.Key(), c.P.Fset.Position(iff.Cond.Pos()))
+			return false
+		}
+		for _, p := range ps {
+			did := map[string]bool{}
+			for _, e := range p.Calls() {
+				if f := formOf(e.Call); f != "" {
+					did[f] = true
+				}
+			}
+			for _, fld := range []string{"BinCounts", "ContiguousBinCounts"} {
+				if !did[fld] && !emptyEvidence(p, fld) {
+					extra = fmt.Sprintf("a path leaves out %s without evidence that it is empty: [%s]", fld, p.String())
+				}
 			}
 		}
-		c.R.check(extra == "", rule, shortFn(g)+"/forms-not-exclusive", shortFn(g), c.fpos(g), "no branch other than the two loops' continuation tests: both bin forms are always added", firstNonEmpty(extra, "ok"))
+		c.R.check(extra == "" && len(ps) > 0, rule, shortFn(g)+"/forms-not-exclusive", shortFn(g), c.fpos(g), "a bin form is left out only when its own collection is empty: both forms are always added", firstNonEmpty(extra, fmt.Sprintf("%d path(s)", len(ps))))
 		c.R.check(sparseOK && contigOK, rule, shortFn(g)+"/both-forms-add-up", shortFn(g), c.fpos(g), "adds BinCounts[k] at int(k) and ContiguousBinCounts[i] at i + int(ContiguousBinIndexOffset)", fmt.Sprintf("sparse=%v contiguous=%v", sparseOK, contigOK))
 	}
 	c.R.floor(rule, "MergeWithProto copies", len(fns), 2)
